@@ -200,6 +200,34 @@ Proof.
   - apply inv_init.
 Qed.
 
+(* "context produced by node j" (j counted from 1): node j declares the key, no node between j and the reader declares or
+   suppresses it, and the value the reader resolves is the one the context holds right after node j ran *)
+Theorem C02_origin_names_last_writer :
+  forall (p : list inode) rs required c0 d0,
+  inspect impl p = (rs, required) ->
+  forallb node_ok rs = true ->
+  forall k n o r name j d' c',
+  nth_error p k = Some (n, o) -> nth_error rs k = Some r ->
+  In (name, OContext (Some j)) (r_origins r) ->
+  run (firstn k (map fst p)) (d0, c0) = Done (d', c') ->
+  1 <= j <= k /\
+  (exists nj oj, nth_error p (j - 1) = Some (nj, oj) /\ smem name (created_of nj) = true) /\
+  exists dj cj, run (firstn j (map fst p)) (d0, c0) = Done (dj, cj) /\ lookup name c' = lookup name cj.
+Proof.
+  intros p rs required c0 d0 HI Hok k n o r name j d' c' Hnth Hr Hin Hrun.
+  unfold inspect in HI. destruct (inspect_from impl 1 p init_state) as [rs0 st] eqn:E. injection HI as -> _.
+  exact (value_from_last_creator impl gen_origin_last p rs st E Hok k n o r name j d0 c0 d' c' Hnth Hr Hin Hrun).
+Qed.
+(* a key created twice: the reader's origin is the second creator (the first-creator variant is refuted above by F-C02-e) *)
+Definition created_twice : list inode :=
+  [ (nd (lib_src false) [("value", VNum 1)] None, TF); (nd lib_probe [] (Some "factor"), TF); (nd (lib_mul false) [] None, TF);
+    (nd lib_probe [] (Some "factor"), TF); (nd (lib_mul false) [] None, TF) ].
+Example ex_created_twice :
+  (let '(rs, _) := inspect impl created_twice in map (fun r => r_origins r) rs) =
+    [[]; []; [("factor", OContext (Some 2))]; []; [("factor", OContext (Some 4))]] /\
+  run (map fst created_twice) (DNone, []) = Done (DF 1, [("factor", VNum 1)]).
+Proof. vm_compute. split; reflexivity. Qed.
+
 (* the per-classification statements (any inspector state) *)
 Theorem C02_classified_context_truthful : forall n st name j c,
   classify n st name = OContext j -> has name c = true ->
@@ -274,6 +302,7 @@ Print Assumptions C02_origin_last_writer.
 Print Assumptions C02_config_origin_is_config.
 Print Assumptions C02_origin_default_truthful.
 Print Assumptions C02_origin_context_truthful.
+Print Assumptions C02_origin_names_last_writer.
 Print Assumptions C02_classified_context_truthful.
 Print Assumptions C02_classified_default_truthful.
 Print Assumptions C02_origin_default_refuted_when.
